@@ -294,6 +294,67 @@ func c02Dir(c *rt.Ctx, fsType string, r *rand.Rand) {
 	}
 }
 
+// c02Chdir compares Chdir on handles with os.File.Chdir: handles opened under relative, unclean and symbolic-link names
+// while the current directory moves, then Getwd and relative lookups after every step.
+func c02Chdir(c *rt.Ctx, fsType string, r *rand.Rand) {
+	l := &lockstep{c: c, fsType: fsType, symSize: true}
+	if err := l.reset(0o022); err != nil {
+		c.Rep.Inconclusive = append(c.Rep.Inconclusive, "kernel reset failed: "+err.Error())
+		return
+	}
+	setup := []fsx.Op{{K: "Mkdir", P: "/w", Perm: 0o755}, {K: "Mkdir", P: "/w/d", Perm: 0o755}, {K: "Mkdir", P: "/w/d/e", Perm: 0o755},
+		{K: "WriteFile", P: "/w/f", Data: "F", Perm: 0o644}, {K: "WriteFile", P: "/w/d/g", Data: "G", Perm: 0o644}}
+	dirs := []string{"/", "/w", "/w/d", "/w/d/e", "d", "e", "..", "../..", ".", "w"}
+	opens := []string{".", "..", "d", "e", "/w/d", "d/e", "../d", "f", "/w/f", "./d/", "/w//d/.", "w", "/w/d/e/..", "g"}
+	if fsType == "MemFS" {
+		setup = append(setup, fsx.Op{K: "Symlink", P: "d", Q: "/w/ld"}, fsx.Op{K: "Symlink", P: "/w/d/e", Q: "/w/d/le"})
+		dirs = append(dirs, "ld", "/w/ld", "le")
+		opens = append(opens, "ld", "/w/ld", "le", "ld/e", "/w/d/le/..")
+	}
+	for _, o := range setup {
+		a, b := l.emu.Exec(o), l.osx.Exec(o)
+		if !a.Same(b) {
+			return // C01's business
+		}
+	}
+	var hist []string
+	replay := func() any { return map[string]any{"fs": fsType, "setup": opStrings(setup), "history": hist} }
+	for i := 0; i < 24; i++ {
+		var o fsx.Op
+		switch x := r.IntN(10); {
+		case x < 2:
+			o = fsx.Op{K: "Chdir", P: dirs[r.IntN(len(dirs))]}
+		case x < 5:
+			o = fsx.Op{K: "OpenFile", P: opens[r.IntN(len(opens))], H: r.IntN(3)}
+		case x < 8:
+			o = fsx.Op{K: "F.Chdir", H: r.IntN(3)}
+		case x < 9:
+			o = fsx.Op{K: "F.Close", H: r.IntN(3)}
+		default:
+			o = fsx.Op{K: "Stat", P: []string{"g", "e", "f", "d", "."}[r.IntN(5)]}
+		}
+		a, b := l.emu.Exec(o), l.osx.Exec(o)
+		hist = append(hist, o.String()+" -> "+a.String())
+		c.Rep.Case(fmt.Sprintf("%s|handle-chdir|%s|%s", fsType, o.K, a.Err), i > 0)
+		if a.Err == "nohandle" && b.Err == "nohandle" {
+			continue
+		}
+		if fatalRes(a) {
+			return
+		}
+		if !a.Same(b) {
+			c.Disagree(fmt.Sprintf("%s|handle-chdir|%s|emu=%s|os=%s", fsType, o.K, a.Err, b.Err), fmt.Sprintf("%s: %s returns %s but %s on Linux", fsType, o, a, b), replay())
+			return
+		}
+		wa, wb := l.emu.Exec(fsx.Op{K: "Getwd"}), l.osx.Exec(fsx.Op{K: "Getwd"})
+		if !wa.Same(wb) {
+			c.Disagree(fmt.Sprintf("%s|handle-chdir|%s|%s|getwd-differs", fsType, o.K, a.Err), fmt.Sprintf("%s: after %s the current directory is %s but %s on Linux", fsType, o, wa, wb), replay())
+			return
+		}
+	}
+	c.Rep.Count("complete_handle_chdir_scenarios", 1)
+}
+
 func init() {
 	register(&Check{
 		Prop:   "C02",
@@ -301,7 +362,7 @@ func init() {
 		Shards: shards(12, 16),
 		Meta: func(tier string) rt.Meta {
 			return rt.Meta{Level: "exploration", MinEvals: 5000, MinDistinct: 100,
-				Rule:        "differential lockstep against *os.File on tmpfs (chroot): scenarios of one file (0-40 bytes), optionally a second hard link, up to 3 handles opened with independently drawn flag sets (36 sets) and 60 steps of Read/ReadAt/Write/WriteAt/WriteString/Seek/Truncate/Stat/Sync/Chmod/Chown/Close/re-open and path-level Truncate/Rename/Link/Remove/Chmod/WriteFile of the file; offsets, sizes and lengths straddle the current size. After EVERY step the offset and Stat of every open handle and the content/size/mode/owner/nlink of every link are compared. Plus bounded-exhaustive: every sequence of 2 (quick) / 3 (thorough) operations of a reduced set for each flag set. Directory handles are judged against the statement itself. Signature = fs | op | handle mode | offset-vs-size class | argument classes | outcome; non-trivial = not the first step.",
+				Rule:        "differential lockstep against *os.File on tmpfs (chroot): scenarios of one file (0-40 bytes), optionally a second hard link, up to 3 handles opened with independently drawn flag sets (36 sets) and 60 steps of Read/ReadAt/Write/WriteAt/WriteString/Seek/Truncate/Stat/Sync/Chmod/Chown/Close/re-open and path-level Truncate/Rename/Link/Remove/Chmod/WriteFile of the file; offsets, sizes and lengths straddle the current size. After EVERY step the offset and Stat of every open handle and the content/size/mode/owner/nlink of every link are compared. Plus bounded-exhaustive: every sequence of 2 (quick) / 3 (thorough) operations of a reduced set for each flag set. Directory handles are judged against the statement itself. Chdir on handles: handles opened under relative, unclean and symbolic-link names while the current directory moves (24 steps), Getwd compared after every step. Signature = fs | op | handle mode | offset-vs-size class | argument classes | outcome; non-trivial = not the first step.",
 				Assumptions: []string{"Seek whence 3/4 (SEEK_DATA/HOLE) are never generated; error strings, Fd and mtimes are not compared"}}
 		},
 		Timeout: func(tier string) int {
@@ -323,6 +384,7 @@ func init() {
 					r := c.Rand(fmt.Sprintf("c02-%s-%d", fsType, h))
 					c02Scenario(c, fsType, r, nil, -1)
 					c02Dir(c, fsType, r)
+					c02Chdir(c, fsType, r)
 				}
 				// bounded-exhaustive short sequences for every flag set
 				red := []fsx.Op{{K: "F.Read", N: 4}, {K: "F.Write", Data: "xyz"}, {K: "F.Seek", N: 9, M: 0}, {K: "F.Seek", N: -1, M: 2}, {K: "F.Truncate", N: 2}, {K: "F.Truncate", N: 9},
